@@ -696,6 +696,9 @@ var _ = time.Now
 // globals only read. Returns "" when pure, else the first offending construct.
 func (e *Engine) purityScan(fn *ssa.Function) string {
 	for _, p := range fn.Params {
+		if stt, ok := under(p.Type()).(*types.Struct); ok && stt.NumFields() == 1 && isScalarType(stt.Field(0).Type()) {
+			continue // a single-field value struct is as good as its field
+		}
 		if !isScalarType(p.Type()) {
 			return "parameter " + p.Name() + " is not a scalar"
 		}
@@ -750,7 +753,9 @@ func (e *Engine) purityScan(fn *ssa.Function) string {
 					return "dynamic call"
 				}
 				switch callee.String() {
-				case "math/bits.Len64", "math/bits.Len", "math/bits.LeadingZeros64", "math/bits.TrailingZeros64":
+				case "math/bits.Len64", "math/bits.Len", "math/bits.LeadingZeros64", "math/bits.TrailingZeros64",
+					"crypto/sha256.Sum256", "strconv.Itoa", "strconv.FormatInt", "strconv.AppendInt", "strconv.ParseInt",
+					"strings.IndexByte", "strings.HasPrefix", "strings.LastIndexByte":
 					continue
 				}
 				ct := e.contractFor(callee)
